@@ -134,7 +134,12 @@ func runC08Pipeline(tier string, seed uint64, idx int) core.Result {
 		inWindow.Add(-1)
 	})
 
-	c, leaderName, cleanup, ok := newCluster(r, rf, 0, false)
+	// every third case uses 4 KiB log segments: rollovers happen while group syncs are in flight
+	segSize := []int32{0, 0, 4096}[idx%3]
+	if segSize != 0 {
+		r.Count("cases_with_small_log_segments", 1)
+	}
+	c, leaderName, cleanup, ok := newCluster(r, rf, segSize, false)
 	if !ok {
 		return r.Done()
 	}
